@@ -105,14 +105,15 @@ Definition bin_ty (op : binop) (a b : lty) : option lty :=
       end
   end.
 
-(* type of a closed expression built from literals whose operators cannot fail *)
+(* type of an expression built from literals and template strings whose operators cannot fail
+   (the image of literal_type in src/resolver.rs, where `Expr::String` covers templates) *)
 Fixpoint lit_ty (e : expr) : option lty :=
   match e with
   | ENum _ => Some TNum
   | EStr _ => Some TStr
   | EBool _ => Some TBool
   | ENull => Some TNull
-  | EInterp segs => if forallb is_seglit segs then Some TStr else None
+  | EInterp _ => Some TStr     (* a template string: whatever its variables hold, the result is a string *)
   | EArr es =>
       if forallb (fun x => match lit_ty x with Some _ => true | None => false end) es
       then Some TArr else None
@@ -139,6 +140,12 @@ Fixpoint pure_total (e : expr) : bool :=
   | EVar _ _ => true
   | EInterp _ => true
   | EArr es => forallb pure_total es
+  | ECall (EVar f _) [a] _ =>
+      (* the two global built-ins src/analysis/effects.rs calls PureNoTrap that the model has *)
+      match global_builtin f with
+      | Some GTypeOf | Some GToString => pure_total a
+      | _ => false
+      end
   | _ => match lit_ty e with Some _ => true | None => false end
   end.
 
@@ -376,6 +383,29 @@ Definition dead_ids (prog : list stmt) (ss : list Z) : list Z :=
   nodup Z.eq_dec
     (filter (fun d => negb (memz d bad) && negb (memz d reads) && negb (memz d params)) cands).
 
+(* candidate dead ids, counting only what can execute: statements in live positions of the
+   root and of the functions live code can call (a local that only dead code or an unused
+   function still mentions is never read by any run) *)
+Fixpoint lstmts (lf : list Z) (live : bool) (t : stmt) {struct t} : list stmt :=
+  let blk := fix blk (lv : bool) (b : list stmt) {struct b} : list stmt :=
+    match b with
+    | [] => []
+    | x :: r => lstmts lf lv x ++ blk (lv && negb (never_normal x)) r
+    end in
+  (if live then [t] else []) ++
+  match t with
+  | SFun _ _ _ body (Some f) _ _ => if memz f lf then blk true body else []
+  | SFun _ _ _ _ None _ _ => []
+  | SIf _ _ th el => blk live th ++ match el with Some e => blk live e | None => [] end
+  | SLoop _ _ body | SBlock _ body => blk live body
+  | _ => []
+  end.
+Fixpoint lstmts_block (lf : list Z) (lv : bool) (b : list stmt) : list stmt :=
+  match b with
+  | [] => []
+  | x :: r => lstmts lf lv x ++ lstmts_block lf (lv && negb (never_normal x)) r
+  end.
+
 (* calls made by the statements in live positions of a block, nested function bodies
    excluded (they are separate regions) *)
 Fixpoint live_calls (live : bool) (t : stmt) {struct t} : list Z :=
@@ -417,6 +447,22 @@ Definition live_fns (prog : list stmt) : list Z :=
   let tbl := fn_table prog in
   close_fns (S (length tbl)) tbl (nodup Z.eq_dec (live_calls_block true prog)).
 
+Definition dead_ids_live (prog : list stmt) (ss : list Z) : list Z :=
+  let sts := lstmts_block (live_fns prog) true prog in
+  let reads := flat_map (fun t => flat_map expr_vars (stmt_exprs t)) sts in
+  let params := param_ids prog in
+  let bad := flat_map (fun t => match writer_of t with
+                                | Some (d, e) =>
+                                    if in_plan_stmt (Some (ss, [])) (stmt_sid t) && pure_total e
+                                    then [] else [d]
+                                | None => []
+                                end) sts in
+  (* candidates: every written local, also those only code that never runs writes *)
+  let cands := flat_map (fun t => match writer_of t with Some (d, _) => [d] | None => [] end)
+                        (all_stmts_block prog) in
+  nodup Z.eq_dec
+    (filter (fun d => negb (memz d bad) && negb (memz d reads) && negb (memz d params)) cands).
+
 (* ---------- classification of the entries of a real plan ---------- *)
 Inductive pclass :=
 | CUnreachable          (* covered: prune_sound_partial_unreachable *)
@@ -443,7 +489,7 @@ Fixpoint expr_forbidden (e : expr) : bool :=
   | EUn _ a => expr_forbidden a
   | EArr es => existsb expr_forbidden es
   | EIdx _ _ => true
-  | EMember o _ => expr_forbidden o
+  | EMember _ _ => true      (* a member access that is not a callee always raises Type mismatch *)
   | ECall callee args _ =>
       existsb expr_forbidden args ||
       match callee with
@@ -488,8 +534,7 @@ Record verdict := {
                                prune_sound_partial_residual holds for this program and plan *)
 }.
 
-Definition plan_ok (prog : list stmt) (ss fs : list Z) : verdict :=
-  let dead := dead_ids prog ss in
+Definition plan_ok_with (dead : list Z) (prog : list stmt) (ss fs : list Z) : verdict :=
   let reads := read_ids prog in
   let live := live_fns prog in
   let cs := map (fun i => (i, classify_stmt prog dead reads ss i)) ss in
@@ -500,6 +545,12 @@ Definition plan_ok (prog : list stmt) (ss fs : list Z) : verdict :=
               c_all := false; c_nr := true |} in
   {| v_stmt := cs; v_fn := cf; v_residual := (ss2, fs2); v_dead := dead; v_live := live;
      v_checked := covered_ok c prog |}.
+
+(* the dead set is a hint: whatever it is, v_checked decides.  First the set that ignores
+   code no run can reach; should the verified check refuse it, the plain one. *)
+Definition plan_ok (prog : list stmt) (ss fs : list Z) : verdict :=
+  let v := plan_ok_with (nodup Z.eq_dec (dead_ids prog ss ++ dead_ids_live prog ss)) prog ss fs in
+  if v_checked v then v else plan_ok_with (dead_ids prog ss) prog ss fs.
 
 (* ---------- never-read locals whose declaration the analysis keeps ----------
    The analysis keeps `make u get e` when a later statement still mentions u, even if that
